@@ -28,7 +28,7 @@ RULE = (
     "class, entry point, document kind, feature flags of the document)."
 )
 SHARDS = {"quick": 16, "thorough": 16}
-TIMEOUT = {"quick": 400, "thorough": 3600}
+TIMEOUT = {"quick": 400, "thorough": 7200}
 MIN_EVALS = {"quick": 15000, "thorough": 200000}
 ASSUMPTIONS = [
     "parsing a part on first access is not a change of the document: all XML parts are parsed before the first digest",
@@ -436,10 +436,10 @@ def gen_sources(ctx):
     srcs += [{"kind": "decorated", "base": b} for b in ("text", "simple_table.ods", "note.odt")]
     vbases = list(DL.TEMPLATES) + [s for s in DL.sample_files() if not DL.is_big(s) and s.rsplit(".", 1)[-1] in ("odt", "ods", "odp", "odg")]
     rngv = ctx.rng("variants")
-    for i in range(24 if ctx.quick else 300):
+    for i in range(24 if ctx.quick else 1500):
         srcs.append({"kind": "variant", "base": vbases[i % len(vbases)] if i < len(vbases) else rngv.choice(vbases), "seed": i})
     rng = ctx.rng("gen")
-    for i in range(12 if ctx.quick else 400):
+    for i in range(12 if ctx.quick else 2500):
         spec = DL.gen_doc_spec(rng, kind="text" if i % 2 else "spreadsheet")
         if spec["type"] == "text":
             spec["table"] = True
